@@ -84,9 +84,9 @@ Definition server_fault (code : text) (e : pyexn) : fault :=
      f_actor := []; f_detail := None; f_lang := t "en" |}.
 
 (** [Redirect.do_redirect] of the base class *)
-Definition not_implemented : pyexn := {| x_type := t "NotImplementedError"; x_text := [] |}.
+Definition not_implemented : pyexn := {| px_type := t "NotImplementedError"; px_text := [] |}.
 (** a Fault seen through an [except Exception as e] clause *)
-Definition exn_of_fault (f : fault) : pyexn := {| x_type := t "Fault"; x_text := f_string f |}.
+Definition exn_of_fault (f : fault) : pyexn := {| px_type := t "Fault"; px_text := f_string f |}.
 
 Definition handler_matches (h : hcls) (r : raise) : bool :=
   match h, r with
@@ -343,7 +343,7 @@ Definition handle_rpc (p : prot) (u : ucode) : out (Z * wire) :=
     | SOk w => Ok (200, w)
     | SRaise (RFault f) => handle_error p None f
     | SRaise (RExn e) => handle_error p None (server_fault (t "Server") e)
-    | SCrash e => handle_error p None (server_fault (t "Server") {| x_type := []; x_text := [] |})
+    | SCrash e => handle_error p None (server_fault (t "Server") {| px_type := []; px_text := [] |})
     end
     end
   end.
